@@ -313,9 +313,9 @@ Proof.
 Qed.
 
 (* non-vacuity: a subscriber added before the run, one added while the task is suspended and one
-   added after the cancellation; the cancelled task's generator raises in its cleanup *)
+   added after the cancellation; the cancelled task's generator raises a BaseException in its cleanup (an Exception would be dropped, see close_result) *)
 Example task_notify_nonvacuous :
-  run_task [mkphase ViaBatch (CleanRaise 77) [ISubscribe 2 CbOk; ISetError 300; ISubscribe 3 CbOk; ISetValue VNone; IError] (Ok VNone)]
+  run_task [mkphase ViaBatch (CleanRaiseBase 77) [ISubscribe 2 CbOk; ISetError 300; ISubscribe 3 CbOk; ISetValue VNone; IError] (Ok VNone)]
            (PRet (VInt 1)) [OSubscribe 1 (CbRaise XAssertion); OValue; OError]
   = ([RUnit; RRaise 300; RErr 300], [RUnit; RRaise 77; RUnit; RRaise E_ALREADY; RErr 300],
      [(1, Err 300); (2, Err 300)], 1, [1; 2; 3]).
@@ -326,7 +326,7 @@ Proof. reflexivity. Qed.
    and subscribes 5, 3 unsubscribes the already notified 2: all of 1, 2, 3 are called once, 5 and
    the later 4 are not; after reset_unsafe the next completion notifies the list as left behind *)
 Example task_reentrant_nonvacuous :
-  run_task [mkphase ViaFuture (CleanRaise 77)
+  run_task [mkphase ViaFuture (CleanRaiseBase 77)
               [ISubscribe 2 (CbSeq (CbUnsub 3) (CbSub 5 CbOk)); ISubscribe 3 (CbUnsub 2); ISetError 300; ISubscribe 4 CbOk]
               (Ok VNone)]
            (PRet (VInt 1)) [OSubscribe 1 (CbUnsub 1); OError; OReset; OValue]
